@@ -40,7 +40,7 @@ MAXMODS = 6
 GRACE = 20.0            # seconds a daemon may take to stop by itself before it is stopped from outside
 GRACE_AFTER_ANOMALY = 2.0
 MAX_ANOMALIES = 12      # per worker: after that many externally stopped daemons the worker gives up
-REAL_BUDGET_S = 540    # thorough: wall-clock budget for the daemon runs (cuts the 4-module enumeration only)
+REAL_BUDGET_S = 620    # thorough: wall-clock budget for the daemon runs (cuts the 4-module enumeration only)
 MIN_TAIL_S = 60        # ... of which at least this much for the 4-module enumeration
 CHUNK = 20000           # trace lines per TLC validation run
 INVARIANT_TO_CONJUNCT = lambda name: name.rstrip("_")
